@@ -100,6 +100,111 @@ fn code_after_frame(asm: &Asm) -> Vec<String> {
     asm.code.iter().skip(2).cloned().collect()
 }
 
+/// Every constant of a class, in every radix: the emitted instruction must be the one the decimal
+/// spelling gives, and that instruction must carry exactly that number (executed on the real
+/// Interpreter). Classes: word immediate, byte immediate, direct address, displacement.
+fn sweep_constants(rep: &Reporter, c: &Counters) -> (u64, u64) {
+    let spelled = AtomicU64::new(0);
+    let executed = AtomicU64::new(0);
+    // (template with {} for the constant, values, class: 0 = word immediate, 1 = byte immediate, 2 = direct byte address, 3 = displacement)
+    let classes: Vec<(&str, u32, u8)> = vec![("mov ax, {}", 65536, 0), ("mov bl, {}", 256, 1), ("mov al, byte [{}]", 65536, 2), ("mov al, byte [bx, {}]", 65536, 3), ("add word [{}], 1", 65536, 2), ("cmp cx, {}", 65536, 0)];
+    for (tmpl, n, class) in classes.iter() {
+        let chunks: Vec<u32> = (0..*n).step_by(512).collect();
+        chunks.par_iter().for_each(|lo| {
+            with_worker(|wk| {
+                let m = crate::pipe::Machine::new();
+                for v in *lo..(*lo + 512).min(*n) {
+                    let bits = if *class == 1 { 8 } else { 16 };
+                    let canon_src = format!("start:\n{}\n", tmpl.replace("{}", &v.to_string()));
+                    let canon = match assemble(&canon_src) {
+                        Ok(a) => a,
+                        Err(e) => {
+                            rep.report(Viol { site: format!("constant / {}", tmpl), field: "respelling-rejected".into(), vars: vec![("v".into(), v as i64)], got_val: None, expected: "a constant inside its range is accepted".into(), got: format!("{:?}", e), case: json!({"src": canon_src}), weight: v as u64 });
+                            continue;
+                        }
+                    };
+                    let mut variants: Vec<String> = vec![format!("0x{:x}", v), format!("0X{:X}", v), format!("0b{:b}", v), format!("{:05}", v)];
+                    // the negative decimal with the same bit pattern, where the class is signed
+                    if *class != 2 && v >= (1 << (bits - 1)) {
+                        variants.push(format!("{}", v as i64 - (1i64 << bits)));
+                    }
+                    for sp in variants.iter() {
+                        let src = format!("start:\n{}\n", tmpl.replace("{}", sp));
+                        spelled.fetch_add(1, Ordering::Relaxed);
+                        match assemble(&src) {
+                            Ok(a) => {
+                                // a negative spelling may be emitted as the negative number: both are the same constant
+                                // if the interpreter gives the same effect, checked below through execution
+                                if a.code != canon.code && !sp.starts_with('-') {
+                                    rep.report(Viol { site: format!("constant / {}", tmpl), field: "respelling-output".into(), vars: vec![("v".into(), v as i64)], got_val: None, expected: format!("identical output {:?}", canon.code), got: format!("{}: {:?}", sp, a.code), case: json!({"src": src, "canonical_src": canon_src}), weight: v as u64 });
+                                }
+                                if sp.starts_with('-') {
+                                    // execute the negative spelling too
+                                    exec_const(rep, c, wk, &m, &a, tmpl, *class, v, &src, &executed);
+                                }
+                            }
+                            Err(e) => {
+                                let field = if sp.len() == 5 && sp.starts_with('0') { "respelling-rejected-leading-zeros" } else { "respelling-rejected" };
+                                let got = format!("{}: {:?}", sp, e);
+                                if !rep.absorbed_by(&format!("constant / {}", tmpl), field, &[("v", v as i64)], None, &got) {
+                                    rep.report(Viol { site: format!("constant / {}", tmpl), field: field.into(), vars: vec![("v".into(), v as i64)], got_val: None, expected: "every radix spelling of an in-range constant is accepted".into(), got, case: json!({"src": src}), weight: v as u64 });
+                                }
+                            }
+                        }
+                    }
+                    exec_const(rep, c, wk, &m, &canon, tmpl, *class, v, &canon_src, &executed);
+                }
+                wk.bench.hard_reset();
+            })
+        });
+    }
+    (spelled.load(Ordering::Relaxed), executed.load(Ordering::Relaxed))
+}
+
+/// execute the single emitted instruction and check that it carries the number `v`
+fn exec_const(rep: &Reporter, c: &Counters, wk: &mut Worker, m: &crate::pipe::Machine, asm: &Asm, tmpl: &str, class: u8, v: u32, src: &str, executed: &AtomicU64) {
+    if asm.code.len() != 1 {
+        rep.report(Viol { site: format!("constant / {}", tmpl), field: "count".into(), vars: vec![], got_val: None, expected: "one emitted instruction".into(), got: format!("{:?}", asm.code), case: json!({"src": src}), weight: v as u64 });
+        return;
+    }
+    let vm = &mut wk.bench.vm;
+    let mut ictx = asm.ictx();
+    vm.arch.ax = 0x5A5A;
+    vm.arch.bx = 0x1234;
+    vm.arch.cx = 0x4321;
+    vm.arch.ds = 0;
+    vm.arch.flag = 0xF000;
+    // the cell the instruction must touch (direct address v, or BX + v wrapped to 16 bits), and a marker in it
+    let addr: Option<usize> = match class {
+        2 => Some(v as usize),
+        3 => Some(((0x1234 + v) & 0xFFFF) as usize),
+        _ => None,
+    };
+    if let Some(a) = addr {
+        vm.mem[a] = 0xA7;
+        vm.mem[(a + 1) & 0xFFFFF] = 0x00;
+    }
+    let e = m.exec(0, vm, &mut ictx, &asm.code[0]);
+    executed.fetch_add(1, Ordering::Relaxed);
+    c.add_exec(1);
+    let ok = match (tmpl, class) {
+        ("mov ax, {}", _) => vm.arch.ax == v as u16,
+        ("mov bl, {}", _) => vm.arch.bx == (0x1200 | v) as u16,
+        ("mov al, byte [{}]", _) | ("mov al, byte [bx, {}]", _) => vm.arch.ax == 0x5AA7,
+        ("add word [{}], 1", _) => addr.map(|a| vm.mem[a] == 0xA8).unwrap_or(false),
+        ("cmp cx, {}", _) => (vm.arch.flag & 0x0040 != 0) == (v == 0x4321) && (vm.arch.flag & 0x0001 != 0) == ((0x4321u32) < v),
+        _ => true,
+    };
+    let got_state = format!("{:?}; AX=0x{:04X} BX=0x{:04X} flags=0x{:04X}", e, vm.arch.ax, vm.arch.bx, vm.arch.flag);
+    if let Some(a) = addr {
+        vm.mem[a] = 0;
+        vm.mem[(a + 1) & 0xFFFFF] = 0;
+    }
+    if !ok || e != Exec::Ok(St::Next) {
+        rep.report(Viol { site: format!("constant / {}", tmpl), field: "constant-value".into(), vars: vec![("v".into(), v as i64)], got_val: None, expected: format!("the emitted instruction {:?} carries the number {} (0x{:X})", asm.code[0], v, v), got: got_state, case: json!({"src": src, "emitted": asm.code}), weight: v as u64 });
+    }
+}
+
 pub fn run(tier: &Tier) -> i32 {
     let rep_o = Reporter::new("C11", tier.name());
     let c_o = Counters::default();
@@ -441,11 +546,12 @@ pub fn run(tier: &Tier) -> i32 {
             }
         }
     });
+    let (const_spellings, const_execs) = sweep_constants(rep, c);
     c.states.fetch_add(respellings.load(Ordering::Relaxed), Ordering::Relaxed);
     let mut cov = Coverage::default();
     cov.exhaustive = true;
-    cov.rule = "for every shape of the syntax.md catalog: (a) the line the real Preprocessor emits, executed by the real Interpreter on two distinguishing machine states, has the effect the reference computes for the AST instruction (same operation, operand roles, constants); (b) EVERY single spelling deviation of the canonical rendering - each keyword token in upper case, each constant in 0x / 0X / 0b / negative decimal / leading zeros / OFFSET of a label with that offset, each gap as tab / newline / several spaces / blank lines / CRLF / an extra space - must assemble to the identical instruction list; (c) one emitted instruction per source instruction and all ordered triples of 8 distinguishable instructions keep order; (d) labels differing only in case are different labels; (e) 8 comment placements through the CLI binary behave like the uncommented program".into();
-    cov.bounds = json!({"catalog_shapes": cat.len(), "respellings": respellings.load(Ordering::Relaxed), "semantic_executions": semantic.load(Ordering::Relaxed), "triples": triples.len(), "comment_variants": variants.len(), "tier": tier.name()});
+    cov.rule = "for every shape of the syntax.md catalog: (a) the line the real Preprocessor emits, executed by the real Interpreter on two distinguishing machine states, has the effect the reference computes for the AST instruction (same operation, operand roles, constants); (b) EVERY single spelling deviation of the canonical rendering - each keyword token in upper case, each constant in 0x / 0X / 0b / negative decimal / leading zeros / OFFSET of a label with that offset, each gap as tab / newline / several spaces / blank lines / CRLF / an extra space - must assemble to the identical instruction list; (c) one emitted instruction per source instruction and all ordered triples of 8 distinguishable instructions keep order; (d) labels differing only in case are different labels; (e) 8 comment placements through the CLI binary behave like the uncommented program; (f) EVERY constant of a class in every radix: all 65536 word immediates (two instructions), all 256 byte immediates, all 65536 direct addresses (two instructions) and all 65536 displacements, spelled in decimal, 0x, 0X, 0b, with leading zeros and as the negative decimal with the same bit pattern: the emitted instruction equals the decimal spelling's and, executed by the real Interpreter, carries exactly that number".into();
+    cov.bounds = json!({"catalog_shapes": cat.len(), "respellings": respellings.load(Ordering::Relaxed), "semantic_executions": semantic.load(Ordering::Relaxed), "triples": triples.len(), "constant_spellings": const_spellings, "constant_executions": const_execs, "comment_variants": variants.len(), "tier": tier.name()});
     cov.assumptions = common_assumptions();
     cov.cli_runs = CLI_RUNS.load(Ordering::Relaxed);
     cov.distinct_nontrivial = respellings.load(Ordering::Relaxed);
